@@ -10,6 +10,7 @@ from cell_type_mapper.utils.utils import (
     choose_int_dtype,
     get_timestamp,
     mkstemp_clean,
+    clean_for_uns_serialization,
     _clean_up)
 
 from cell_type_mapper.utils.h5_utils import (
@@ -313,7 +314,10 @@ def _validate_h5ad(
                 if orig != new}
 
             uns = read_uns_from_h5ad(tmp_h5ad_path)
-            uns['AIBS_CDM_gene_mapping'] = gene_mapping
+            # (a gene name may contain a '/', which anndata would
+            # read as a group boundary when the dict is written to uns)
+            uns['AIBS_CDM_gene_mapping'] = clean_for_uns_serialization(
+                gene_mapping)
             write_uns_to_h5ad(tmp_h5ad_path, uns)
             has_warnings = True
 
